@@ -1,0 +1,156 @@
+// Copyright 2017 Pilosa Corp.
+//
+// Licensed under the Apache License, Version 2.0 (the "License");
+// you may not use this file except in compliance with the License.
+// You may obtain a copy of the License at
+//
+//     http://www.apache.org/licenses/LICENSE-2.0
+//
+// Unless required by applicable law or agreed to in writing, software
+// distributed under the License is distributed on an "AS IS" BASIS,
+// WITHOUT WARRANTIES OR CONDITIONS OF ANY KIND, either express or implied.
+// See the License for the specific language governing permissions and
+// limitations under the License.
+
+//go:build verif
+// +build verif
+
+package roaring
+
+// Export shims for the verification harness (/verif, property C01). Add-only, tag-guarded.
+// They build a container of a chosen encoding, run one container kernel and read a container
+// back (type, n, values) without going through the kernels under test.
+
+// VerifC01Array returns an array container holding vals (ascending, duplicate free).
+func VerifC01Array(vals []uint16) *Container {
+	return NewContainerArrayCopy(vals)
+}
+
+// VerifC01Bitmap returns a bitmap container holding vals; n is the number of values.
+func VerifC01Bitmap(vals []uint16) *Container {
+	words := make([]uint64, bitmapN)
+	for _, v := range vals {
+		words[v>>6] |= uint64(1) << (v & 63)
+	}
+	n := int32(0)
+	for _, w := range words {
+		for ; w != 0; w &= w - 1 {
+			n++
+		}
+	}
+	return NewContainerBitmapN(words, n)
+}
+
+// VerifC01Run returns a run container holding exactly the given [start,last] intervals.
+func VerifC01Run(ivs [][2]uint16) *Container {
+	runs := make([]interval16, len(ivs))
+	for i, iv := range ivs {
+		runs[i] = interval16{start: iv[0], last: iv[1]}
+	}
+	return NewContainerRunCopy(runs)
+}
+
+// VerifC01Type names the encoding of c ("nil", "array", "bitmap", "run").
+func VerifC01Type(c *Container) string {
+	switch c.typ() {
+	case containerArray:
+		return "array"
+	case containerBitmap:
+		return "bitmap"
+	case containerRun:
+		return "run"
+	}
+	return "nil"
+}
+
+// VerifC01Values lists the values stored in c in ascending order, reading the raw encoding.
+func VerifC01Values(c *Container) []uint16 {
+	var out []uint16
+	switch c.typ() {
+	case containerArray:
+		out = append(out, c.array()...)
+	case containerBitmap:
+		for i, w := range c.bitmap() {
+			for b := 0; b < 64; b++ {
+				if w&(uint64(1)<<uint(b)) != 0 {
+					out = append(out, uint16(i*64+b))
+				}
+			}
+		}
+	case containerRun:
+		for _, r := range c.runs() {
+			for v := int(r.start); v <= int(r.last); v++ {
+				out = append(out, uint16(v))
+			}
+		}
+	}
+	return out
+}
+
+// VerifC01Runs lists the intervals of a run container (nil for other encodings).
+func VerifC01Runs(c *Container) [][2]uint16 {
+	if c.typ() != containerRun {
+		return nil
+	}
+	var out [][2]uint16
+	for _, r := range c.runs() {
+		out = append(out, [2]uint16{r.start, r.last})
+	}
+	return out
+}
+
+// VerifC01Binary runs one of the binary container kernels through its dispatcher.
+func VerifC01Binary(op string, a, b *Container) *Container {
+	switch op {
+	case "intersect":
+		return intersect(a, b)
+	case "union":
+		return union(a, b)
+	case "difference":
+		return difference(a, b)
+	case "xor":
+		return xor(a, b)
+	}
+	panic("verif: unknown binary kernel " + op)
+}
+
+// VerifC01IntersectionCount exposes intersectionCount.
+func VerifC01IntersectionCount(a, b *Container) int32 { return intersectionCount(a, b) }
+
+// VerifC01CountRange exposes Container.countRange.
+func VerifC01CountRange(c *Container, start, end int32) int32 { return c.countRange(start, end) }
+
+// VerifC01Shift exposes shift.
+func VerifC01Shift(c *Container) (*Container, bool) { return shift(c) }
+
+// VerifC01Flip exposes flip.
+func VerifC01Flip(c *Container) *Container { return flip(c) }
+
+// VerifC01Max exposes Container.max.
+func VerifC01Max(c *Container) uint16 { return c.max() }
+
+// VerifC01CountRuns exposes Container.countRuns.
+func VerifC01CountRuns(c *Container) int32 { return c.countRuns() }
+
+// VerifC01Optimize exposes Container.optimize.
+func VerifC01Optimize(c *Container) *Container { return c.optimize() }
+
+// VerifC01Convert runs one of the six encoding conversions; the source must have the
+// matching encoding.
+func VerifC01Convert(c *Container, conv string) *Container {
+	switch conv {
+	case "arrayToBitmap":
+		return c.arrayToBitmap()
+	case "arrayToRun":
+		return c.arrayToRun(0)
+	case "bitmapToArray":
+		return c.bitmapToArray()
+	case "bitmapToRun":
+		return c.bitmapToRun(0)
+	case "runToArray":
+		return c.runToArray()
+	case "runToBitmap":
+		return c.runToBitmap()
+	}
+	panic("verif: unknown conversion " + conv)
+}
